@@ -12,13 +12,18 @@ from .base import viol, shrink_program
 
 ID = "C19"
 LEVEL = "exploration"
-TIERS = {"quick": {"cases": 2400, "wall": 100, "min_nontrivial": 1200},
-         "thorough": {"cases": 50000, "wall": 1800, "min_nontrivial": 25000}}
+TIERS = {"quick": {"cases": 12000, "wall": 100, "min_nontrivial": 5000},
+         "thorough": {"cases": 250000, "wall": 1800, "min_nontrivial": 100000}}
 RULE = ("dedicated generator for the Fortran 77/90 subset fparser1 has statement classes for (program / subroutine / "
         "function / module / block data, type declarations in old and new style, parameter, dimension, common, data, "
         "save, external, intrinsic, implicit, use, derived types, interface blocks, IF / DO / labelled DO / DO WHILE / "
-        "SELECT CASE / WHERE / FORALL constructs, assignment, pointer assignment, call, I/O statements, goto, computed "
-        "goto, arithmetic if, stop, return, cycle, exit, allocate, deallocate, nullify, format) with the full expression "
+        "SELECT CASE / WHERE / FORALL constructs and statements, labelled DO closed by CONTINUE, by a labelled action "
+        "statement, by a labelled END DO or shared by 2-3 loops, named constructs, labels on arbitrary statements, "
+        "assignment, pointer assignment, call, I/O statements with keyword specifiers and label references, file "
+        "positioning, inquire, goto, computed goto, arithmetic if, stop, pause, return, entry, cycle, exit, allocate / "
+        "deallocate with STAT=, nullify, format, implicit with ranges, kind/len selector spellings, common with "
+        "several and blank blocks, data with several sets and implied-DO, equivalence, namelist, attribute statements, "
+        "access statements, use with renames) with the full expression "
         "generator; free and fixed input, analyze in {False, True}. Oracles: S1 = str(api.parse(P)) exists; "
         "api.parse(S1) succeeds; the bodies of S1 and S2 = str(api.parse(S1)) are equal ignoring the !BEGINSOURCE "
         "header, indentation and blanks after a label; the (statement class, depth) sequence from api.walk is the same "
@@ -160,13 +165,105 @@ class G:
     def spec(self, execu, module=False):
         r = self.r
         for _ in range(r.choice([0, 0, 1])):
-            self.S("use", "use " + self.env.modname() + (", only: %s" % self.env.scalar() if self.p(0.4) else ""))
+            m = self.env.modname()
+            c = r.random()
+            if c < 0.4:
+                self.S("use", "use " + m)
+            elif c < 0.6:
+                self.S("use", "use %s, only: %s" % (m, self.env.scalar()))
+            elif c < 0.75:
+                self.S("use", "use %s, only: %s, %s => %s" % (m, self.env.scalar(), self.env.scalar(), self.env.const()))
+            elif c < 0.9:
+                self.S("use", "use %s, %s => %s" % (m, self.env.scalar(), self.env.const()))
+            else:
+                self.S("use", "use %s, only:" % m)
         if self.p(0.5):
             self.S("implicit", "implicit none")
+        if self.p(0.25):
+            self.s_implicit()
         pool = [self.s_typedecl] * 5 + [self.s_parameter, self.s_dimension, self.s_common, self.s_data, self.s_save,
-                                        self.s_external, self.s_type, self.s_interface]
+                                        self.s_external, self.s_type, self.s_interface, self.s_typedecl2, self.s_common2,
+                                        self.s_data2, self.s_equivalence, self.s_namelist, self.s_attr_stmt]
+        if module:
+            pool += [self.s_access, self.s_access]
         for _ in range(r.randint(0, 5)):
             r.choice(pool)()
+
+    def s_implicit(self):
+        r = self.r
+        ts = r.choice(["real", "integer", "double precision", "real{+(KIND=+}{-(-}8)", "complex", "logical", "character{+(LEN=+}{-(-}4)",
+                       "real*8"])
+        rng = r.choice(["(a-h, o-z)", "(i-n)", "(a)", "(x, y, z)", "(a-c, q)"])
+        self.S("implicit", "implicit %s %s" % (ts, rng))
+
+    def s_typedecl2(self):
+        """selector and entity shapes beyond s_typedecl"""
+        r = self.r
+        ts = r.choice(["real(kind(1.0d0))", "integer(selected_int_kind(5))", "real(kind=kind(0.0))", "character(len=5, kind=1)",
+                       "character*(*)", "character*(10)", "character(*)", "complex(kind=8)", "complex*16", "logical*1",
+                       "integer(kind=%s)" % self.env.const(), "real(%s)" % self.env.const(),
+                       "character(len=%s)" % self.env.const(), "character(len=2*3)"])
+        ents = []
+        for _ in range(r.randint(1, 3)):
+            e = self.env.scalar()
+            c = r.random()
+            if c < 0.3:
+                e += "(%s)" % r.choice(["-1:1", "2, 0:3", "n", "3, *"])
+            elif c < 0.4 and ts.startswith("character") and "*" not in ts:
+                e += "*%s" % r.choice(["4", "(8)"])
+            ents.append(e)
+        sep = " :: " if self.p(0.6) else " "
+        self.S("typedecl2", ts + sep + ", ".join(ents))
+
+    def s_common2(self):
+        r = self.r
+        a, b = self.env.const(), self.env.const()
+        v = lambda: self.env.scalar() + r.choice(["", "", "(5)"])  # noqa: E731
+        self.S("common2", r.choice([
+            "common %s, %s" % (v(), v()),
+            "common // %s" % v(),
+            "common /%s/ %s, /%s/ %s" % (a, v(), b, v()),
+            "common /%s/ %s /%s/ %s, %s" % (a, v(), b, v(), v()),
+            "common /%s/ %s // %s" % (a, v(), v()),
+        ]))
+
+    def s_data2(self):
+        r = self.r
+        x, y, z = self.env.scalar(), self.env.scalar(), self.env.array()
+        self.S("data2", r.choice([
+            "data %s, %s /1, 2/" % (x, y),
+            "data %s /1/, %s /2.5/" % (x, y),
+            "data %s /10*0/" % z,
+            "data (%s(i), i = 1, 3) /1, 2, 3/" % z,
+            "data %s, %s /2*0.0/" % (x, y),
+            "data %s /'it''s'/" % x,
+            "data %s(1), %s(2) /1, -2/" % (z, z),
+        ]))
+
+    def s_equivalence(self):
+        self.S("equivalence", "equivalence (%s, %s(1))" % (self.env.scalar(), self.env.array()))
+
+    def s_namelist(self):
+        self.S("namelist", "namelist /%s/ %s, %s" % (self.env.const(), self.env.scalar(), self.env.scalar()))
+
+    def s_attr_stmt(self):
+        r = self.r
+        k = r.choice(["pointer", "target", "allocatable", "optional", "intent(in)", "intent(out)", "save /%s/" % self.env.const(),
+                      "save %s, /%s/" % (self.env.scalar(), self.env.const())])
+        if k.startswith("save"):
+            self.S("save2", k)
+            return
+        sep = " :: " if self.p(0.5) else " "
+        ent = self.env.scalar() + ("(:)" if k in ("pointer", "allocatable") and self.p(0.4) else "")
+        self.S("attr_stmt", k + sep + ent)
+
+    def s_access(self):
+        r = self.r
+        k = r.choice(["public", "private"])
+        if self.p(0.3):
+            self.S("access", k)
+        else:
+            self.S("access", k + r.choice([" :: ", " "]) + ", ".join(self.env.scalar() for _ in range(r.randint(1, 2))))
 
     def s_typedecl(self):
         r = self.r
@@ -221,8 +318,21 @@ class G:
             attrs = " ::"
         self.S("type_def", "type%s %s" % (attrs, n), role="open", cid=c)
         self.depth += 1
+        if self.p(0.15):
+            self.S("sequence", self.r.choice(["sequence", "private"]))
         for _ in range(self.r.randint(1, 3)):
-            self.S("component", "%s :: %s" % (self.r.choice(["integer", "real", "character(len=8)", "logical"]), self.env.compname()))
+            c = self.r.random()
+            cn = self.env.compname()
+            if c < 0.15:
+                self.S("component", "type(%s), pointer :: %s" % (n, cn))
+            elif c < 0.3:
+                self.S("component", "%s, dimension(3) :: %s" % (self.r.choice(["integer", "real", "logical"]), cn))
+            elif c < 0.45:
+                self.S("component", "%s :: %s%s" % (self.r.choice(["integer", "real", "real(kind=8)"]), cn, self.r.choice(["(2)", " = 0", "(0:1, 3)"])))
+            elif c < 0.55:
+                self.S("component", "%s, pointer :: %s%s" % (self.r.choice(["integer", "real"]), cn, self.r.choice(["", "(:)"])))
+            else:
+                self.S("component", "%s :: %s" % (self.r.choice(["integer", "real", "character(len=8)", "logical"]), cn))
         self.depth -= 1
         self.S("end_type", "end type " + n, role="close", cid=c)
 
@@ -258,7 +368,8 @@ class G:
     def body(self, n, nest):
         for _ in range(n):
             if nest > 0 and self.p(0.3):
-                self.r.choice([self.c_if, self.c_do, self.c_ldo, self.c_dowhile, self.c_select, self.c_where, self.c_forall])(nest - 1)
+                self.r.choice([self.c_if, self.c_do, self.c_ldo, self.c_dowhile, self.c_select, self.c_where, self.c_forall,
+                               self.c_ldo_action, self.c_ldo_shared, self.c_named])(nest - 1)
             else:
                 self.simple()
 
@@ -296,6 +407,81 @@ class G:
         self.sub_body(nest)
         self.loops -= 1
         self.S("do_term_continue", "continue", label=l, role="close", cid=c)
+
+    def c_ldo_action(self, nest):
+        """labelled DO closed by a labelled action statement or by a labelled END DO"""
+        c = self.ncid()
+        l = self.label()
+        s = self.S("label_do", "do %s%s %s = %s, %s" % (l, self.r.choice(["", "", ","]), self.env.loopvar(), self.eg.iexpr(0), self.eg.iexpr(0)),
+                   role="open", cid=c)
+        s.extra = {"do_label": l}
+        self.loops += 1
+        self.sub_body(nest)
+        self.loops -= 1
+        if self.p(0.3):
+            self.S("end_do", "end do", label=l, role="close", cid=c)
+        else:
+            self.depth += 1
+            self.S("do_term_action", self.r.choice(["%s = %s" % (self.env.scalar(), self.expr(1)),
+                                                     "call %s(%s)" % (self.env.procname(), self.expr(0)),
+                                                     "print *, %s" % self.expr(0)]), label=l, role="close", cid=c)
+            self.depth -= 1
+
+    def c_ldo_shared(self, nest):
+        """2-3 labelled DO statements sharing one terminal statement"""
+        l = self.label()
+        k = self.r.choice([2, 2, 3])
+        cids = []
+        for j in range(k):
+            c = self.ncid()
+            cids.append(c)
+            s = self.S("label_do", "do %s %s = %s, %s" % (l, self.env.loopvar(), self.eg.iexpr(0), self.eg.iexpr(0)), role="open", cid=c)
+            s.extra = {"do_label": l, "shared": True}
+            self.depth += 1
+            if self.p(0.4):
+                self.simple()
+        self.loops += k
+        self.body(self.r.randint(0, 2), 0)
+        self.loops -= k
+        self.depth -= k
+        self.depth += 1
+        self.S("do_term_shared", self.r.choice(["continue", "continue", "%s = %s" % (self.env.scalar(), self.expr(1))]), label=l,
+               role="close", cid=cids[0])
+        self.depth -= 1
+
+    def c_named(self, nest):
+        """construct names (lower case: fparser1's reader folds the case of the name in the END statement only)"""
+        c = self.ncid()
+        n = self.env.fresh().lower()
+        k = self.r.choice(["do", "if", "dowhile", "select"])
+        if k == "do":
+            self.S("do", "do %s = %s, %s" % (self.env.loopvar(), self.eg.iexpr(0), self.eg.iexpr(1)), cname=n, role="open", cid=c)
+            self.loops += 1
+            self.sub_body(nest)
+            if self.p(0.3):
+                self.depth += 1
+                self.S("cycle_exit", self.r.choice(["cycle ", "exit "]) + n)
+                self.depth -= 1
+            self.loops -= 1
+            self.S("end_do", "end do " + n, role="close", cid=c)
+        elif k == "dowhile":
+            self.S("do", "do while (%s)" % self.lexpr(), cname=n, role="open", cid=c)
+            self.loops += 1
+            self.sub_body(nest)
+            self.loops -= 1
+            self.S("end_do", "end do " + n, role="close", cid=c)
+        elif k == "if":
+            self.S("if_then", "if (%s) then" % self.lexpr(), cname=n, role="open", cid=c)
+            self.sub_body(nest)
+            if self.p(0.4):
+                self.S("else", "else", role="mid", cid=c)
+                self.sub_body(nest)
+            self.S("end_if", "end if " + n, role="close", cid=c)
+        else:
+            self.S("select_case", "select case (%s)" % self.eg.iexpr(0), cname=n, role="open", cid=c)
+            self.S("case", "case (%s)" % self.r.choice(["1", "'a':'z'", "-1:", "1, 3:5, 9"]), role="mid", cid=c)
+            self.sub_body(nest)
+            self.S("end_select", "end select " + n, role="close", cid=c)
 
     def c_dowhile(self, nest):
         c = self.ncid()
@@ -340,6 +526,63 @@ class G:
         self.S("end_forall", "end forall", role="close", cid=c)
 
     def simple(self):
+        r = self.r
+        if self.p(0.22):
+            return self.simple2()
+        n0 = len(self.out)
+        self._simple()
+        if len(self.out) == n0 + 1 and self.out[-1].label is None and self.p(0.08):
+            # any executable statement may carry a label
+            self.out[-1].label = self.label()
+
+    def simple2(self):
+        r = self.r
+        a, b = self.env.array(), self.env.array()
+        x = self.env.scalar()
+        lab = lambda: self.ref()  # noqa: E731
+        pick = r.choice(["where", "where", "forall", "cgoto", "io2", "io3", "alloc2", "nullify", "rewind", "inquire", "pause",
+                         "entry", "char", "ifcall", "assign2"])
+        if pick == "where":
+            self.S("where_stmt", "where (%s %s %s) %s%s = %s" % (a, r.choice([">", "/=", ".lt."]), self.eg.int_lit().split("_")[0],
+                                                                    b, r.choice(["", "(1:3)", "(:)", "(2:)"]), self.expr(1)))
+        elif pick == "forall":
+            v = self.env.loopvar()
+            self.S("forall_stmt", "forall (%s = 1:%s%s) %s(%s) = %s" % (v, self.eg.iexpr(0), r.choice(["", ":2"]), a, v, self.expr(0)))
+        elif pick == "cgoto":
+            self.S("cgoto", "%s (%s, %s)%s %s" % (r.choice(["go to", "goto"]), lab(), lab(), r.choice(["", ","]), self.eg.iexpr(0)))
+        elif pick == "io2":
+            self.S("write2", "write (unit = %s, fmt = %s, iostat = %s) %s" % (r.choice(["6", "*", x]), r.choice(["*", "'(a)'", lab()]),
+                                                                              self.env.scalar(), self.expr(1)))
+        elif pick == "io3":
+            self.S("read2", r.choice(["read (5, %s, end = %s, err = %s) %s" % (lab(), lab(), lab(), self.var()),
+                                      "read %s, %s" % (lab(), self.var()), "read *, %s, %s" % (self.var(), self.var()),
+                                      "print %s, %s" % (lab(), self.expr(0)), "print '(a)', %s" % self.expr(0),
+                                      "write (*, *) (%s(i), i = 1, 3)" % a]))
+        elif pick == "alloc2":
+            self.S("allocate2", r.choice(["allocate (%s(%s), %s(2, 0:%s), stat = %s)" % (a, self.eg.iexpr(0), b, self.eg.iexpr(0), x),
+                                          "deallocate (%s, %s, stat = %s)" % (a, b, x)]))
+        elif pick == "nullify":
+            self.S("nullify", "nullify (%s%s)" % (x, ", " + self.env.scalar() if self.p(0.4) else ""))
+        elif pick == "rewind":
+            self.S("filepos", r.choice(["rewind", "backspace", "endfile"]) + r.choice([" 10", " (10)", " (unit = 10, iostat = %s)" % x]))
+        elif pick == "inquire":
+            self.S("inquire", "inquire (file = 'a.dat', exist = %s)" % x)
+        elif pick == "pause":
+            self.S("pause", r.choice(["pause", "pause 3", "pause 'wait'"]))
+        elif pick == "entry" and self.sub and self.depth == 1:
+            self.S("entry", "entry %s(%s)" % (self.env.fresh(), self.env.scalar()))
+        elif pick == "char":
+            self.S("assign", "%s = %s // %s" % (x, r.choice(["'a''b'", '"say ""hi"""', "'x ! y'", "'a; b'", "'it & that'"]),
+                                                r.choice([self.env.scalar(), "'(/'", "'** .and. //'"])))
+        elif pick == "ifcall":
+            self.S("if_stmt", "if (%s) %s" % (self.lexpr(), r.choice(["call %s(%s)" % (self.env.procname(), self.expr(0)), "goto " + lab(),
+                                                                     "return" if self.sub else "stop", "print *, %s" % self.expr(0),
+                                                                     "write (*, *) %s" % self.expr(0)])),
+                   label=None)
+        else:
+            self.S("assign", "%s%s = %s" % (a, r.choice(["(1:3)", "(:, 1)", "(2)", "(i, j + 1)", "(::2)"]), self.expr(1)))
+
+    def _simple(self):
         r = self.r
         c = r.random()
         if c < 0.35:
@@ -468,11 +711,29 @@ def known_rewrite(st, e, g):
         return True      # empty argument parentheses
     if st.kind.startswith("end_") and g.startswith(e):
         return True      # END <type> <name> completion
-    if st.kind == "typedecl":
-        # selector spelling: KIND= / LEN= made explicit, old-style *n kept or rewritten
-        norm = lambda x: re.sub(r"\((kind|len)=", "(", x.replace("::", ""))  # noqa: E731
+    if st.kind in ("typedecl", "typedecl2", "implicit", "component", "function"):
+        # selector spelling: KIND= / LEN= made explicit, character*(n) written as (LEN=n)
+        def norm(x):
+            x = x.replace("::", "")
+            x = re.sub(r"^character\*\(([^()]*)\)", r"character(\1)", x)
+            return re.sub(r"\((kind|len)=", "(", x)
         if norm(e) == norm(g):
             return True
+    # optional punctuation the standard allows to be left out or added (no token of the program is lost)
+    if st.kind == "cgoto" and re.sub(r"\),", ")", e, count=1) == g:
+        return True      # GO TO (l1, l2)[,] expr
+    if st.kind == "label_do" and re.sub(r"^(\d*do\d+),", r"\1", e) == g:
+        return True      # DO label[,] var = ...
+    if st.kind == "data2" and e.replace("/,", "/") == g:
+        return True      # DATA a /1/[,] b /2/
+    if st.kind == "common2" and e.replace(",/", "/") == g:
+        return True      # COMMON /a/ x[,] /b/ y
+    if st.kind == "common2" and e.startswith("common//") and "common" + e[8:] == g:
+        return True      # COMMON // x  ==  COMMON x
+    if st.kind == "filepos":
+        m = re.match(r"^(\d*)(rewind|backspace|endfile)(\w+)$", e)
+        if m and g == "%s%s(%s)" % m.groups():
+            return True  # REWIND 10  ==  REWIND (10)
     return False
 
 
@@ -480,7 +741,7 @@ def refine_key(P, payload, v):
     """Narrow mechanism keys for the findings known at design time."""
     k = v["key"]
     if k.startswith("regenerated-rejected") and any(
-            st.kind in ("typedecl", "component") and re.search(r"(::|\s)\s*function\w*", to_src(st.text), re.I) for st in P.stmts):
+            st.kind in ("typedecl", "typedecl2", "component") and re.search(r"(::|\s)\s*function\w*", to_src(st.text), re.I) for st in P.stmts):
         return "regenerated-typedecl-without-colons-reads-as-function-stmt"
     if payload["analyze"] and sum(1 for st in P.stmts if st.kind == "interface" and st.text.strip() == "interface") >= 2 \
             and k in ("reparse-text-differs", "reparse-structure-differs", "statement-count"):
